@@ -471,8 +471,10 @@ def stringify_result(r, brackets_for_frac=False):
             # The text is going to be parsed again, and rounding a float
             # bound to the display precision has carried it across the other
             # bound ([1/3, 0.3333334] -> [1/3, 0.333333], which reads back as
-            # the empty interval): give the floats all their digits.
-            a, b = ("{:.17g}".format(x) if isinstance(x, float)
+            # the empty interval): give the floats all their digits, in a
+            # form that always has a decimal point (2e-12 would be read as
+            # the exact 2/10^12, not as the float).
+            a, b = ("{:.16e}".format(x) if isinstance(x, float)
                     else stringify_result(x) for x in (r.a, r.b))
         return "[" + a + ", " + b + "]"
     elif isinstance(r, Instant):
